@@ -31,6 +31,20 @@ def run(ctx):
     for fam, c in tg[::stride]:
         c = dict(c, runs=c["runs"][len(hc) % 3::max(1, len(c["runs"]) // 10)][:12])
         hc.append(C06.to_history(len(hc), fam, c))
+    # dictionary words far longer than any window (256 and 300 characters: offsets that do not fit into 8 bits), with and without
+    # tag prediction
+    for n, tags in ((256, False), (300, True), (255, False)):
+        word = [12354] * n
+        m = {"bias": -3, "cw": 2, "tw": 1, "cng": [{"ng": [12354, 97], "w": [5, -4, 2]}], "tng": [],
+             "dict": [{"ng": word, "w": [((k * 7) % 19) - 9 for k in range(n + 1)]}, {"ng": [97, 12354], "w": [4, -8, 4]}],
+             "tags": ([{"token": [97], "cats": [[[65], [66]]], "cng": [{"ng": [12354, 97], "tw": [{"rel": 0, "w": [3, -3]}]}], "tng": [], "bias": [0, 1]}]
+                      if tags else [])}
+        texts = [[97] + word + [97, 12354], word[:-1] + [97], word + word[:5]]
+        ops = []
+        for t in texts:
+            ops += [{"op": "up_raw", "s": t}, {"op": "predict", "p": 0}] + ([{"op": "fill_tags"}] if tags else [])
+        hc.append({"id": len(hc), "preds": [{"model": m, "tags": tags, "store": False}], "pred_expect": ["ok"], "ops": ops,
+                   "expect": [None] * len(ops), "opts": {"writers": False}, "key": f"long-word-{n}"})
     a_cases, b_cases = [], []
     for h in hc:
         base = {k: v for k, v in h.items() if k not in ("expect", "key", "pred_expect")}
